@@ -601,15 +601,10 @@ def enc_feats(d):
     return [len(d['feats'])] + [MIXINS.index(f) for f in d['feats']]
 
 
-# True while Retry.enter compares the *declared* source name (relative for transitions declared inside a
-# parent's state dict) with the scoped state name — known finding F-C19-retry-local-source.  The Lean model is
-# fed what the code reads.  When the fix is adopted: set to False (the model is then fed the resolved name).
-RETRY_SEES_RAW_SOURCE = False
-
-
 def resolve_source(d, raw, pre_state):
     """full name of a transition source as written in its declaration: itself when it is a full state name,
-    otherwise relative to the enclosing scope of the state the model was in"""
+    otherwise relative to the enclosing scope of the state the model was in — what `Retry.enter` compares
+    with the state's scoped name (`separator.join(machine.prefix_path + [transition.source])`)"""
     names = set(state_names(d))
     if raw in names:
         return raw
@@ -640,7 +635,7 @@ def trigger_steps(d, run):
 
 def groups_of(d, run):
     """the ops the probe saw, per trigger: (kind 0 enter | 1 exit | 2 exit whose callback raised, state, model,
-    source as the model is to read it)"""
+    full name of the transition's source)"""
     idx = sidx(d)
     names = state_names(d)
     unknown = len(names)
@@ -651,10 +646,8 @@ def groups_of(d, run):
         raised = set((it[1], it[2]) for it in st['items'] if it[0] == 'exitRaise')
         for it in st['items']:
             if it[0] == 'op_enter':
-                raw = it[3]
-                if not RETRY_SEES_RAW_SOURCE:
-                    raw = resolve_source(d, raw, names[pre[it[2]]] if 0 <= pre[it[2]] < unknown else None)
-                g.append((0, it[1], it[2], idx.get(raw, unknown)))
+                src = resolve_source(d, it[3], names[pre[it[2]]] if 0 <= pre[it[2]] < unknown else None)
+                g.append((0, it[1], it[2], idx.get(src, unknown)))
             elif it[0] == 'op_exit':
                 g.append((2 if (it[1], it[2]) in raised else 1, it[1], it[2], 0))
         gs.append(g)
